@@ -106,7 +106,91 @@ def judge_boundary(op: Any) -> None:
                       expr=dense.describe(op), out=[list(l.shape) for l in jax.tree.leaves(y)])
 
 
+_harness: dict[str, Any] = {}
+
+
+def harness_classes() -> dict[str, Any]:
+    """Small dense operators tagged with the library's own decorators (the library ships the lower/upper-triangular
+    and semidefinite decorators but no class using them): tags must stay truthful through .T and .I wrappers."""
+    if not _harness:
+        import equinox
+        import jax
+        import jax.numpy as jnp
+
+        from furax.operators import (AbstractLinearOperator, lower_triangular, negative_semidefinite, positive_semidefinite,
+                                     upper_triangular)
+
+        class _Dense(AbstractLinearOperator):
+            m: jax.Array
+            _s: Any = equinox.field(static=True)
+
+            def mv(self, x: Any) -> Any:
+                return self.m @ x
+
+            def in_structure(self) -> Any:
+                return self._s
+
+        for nm, dec in (('lower', lower_triangular), ('upper', upper_triangular), ('psd', positive_semidefinite), ('nsd', negative_semidefinite)):
+            _harness[nm] = dec(type(f'Harness_{nm}', (_Dense,), {}))
+    return _harness
+
+
+def case_harness(rng: Any, ctx: Ctx) -> None:
+    import jax
+    import jax.numpy as jnp
+    n = int(rng.integers(2, 5))
+    dt = np.float32
+    a = rng.integers(-4, 5, size=(n, n)) / 2 + np.eye(n) * 6
+    mats = {'lower': np.tril(a), 'upper': np.triu(a), 'psd': a @ a.T, 'nsd': -(a @ a.T)}
+    kind = gen.pick(rng, sorted(mats))
+    op = harness_classes()[kind](jnp.asarray(mats[kind], dtype=dt), jax.ShapeDtypeStruct((n,), dt))
+    for variant, o in (('A', op), ('A.T', op.T), ('A.T.T', op.T.T)):
+        LOG.count('C08.harness', f'{kind}:{variant}')
+        guarded('C08.tags', lambda o=o: judge_foreign(o, f'{kind}:{variant}'))
+    for variant, f in (('A.I', lambda: op.I), ('A.T.I', lambda: op.T.I)):
+        try:
+            o = f()
+        except Exception:  # noqa: BLE001
+            continue
+        LOG.count('C08.harness', f'{kind}:{variant}')
+        guarded('C08.tags', lambda o=o: judge_foreign(o, f'{kind}:{variant}', inverse_of=mats[kind].T if 'T' in variant else mats[kind]))
+
+
+def judge_foreign(op: Any, label: str, inverse_of: Any = None) -> None:
+    """Tags of an operator built from a harness class (or a library wrapper around one), judged on its dense matrix
+    (the matrix of a solver-based inverse is the NumPy inverse of the operand: no solve needed)."""
+    tags = {t: bool(fn(op)) for t, fn in TAGS.items()}
+    true_tags = [t for t, v in tags.items() if v]
+    LOG.evaluated('C08.tags')
+    if not true_tags:
+        return
+    m = np.linalg.inv(np.asarray(inverse_of, np.float64)) if inverse_of is not None else dense.matrix(op)
+    tol = 1e-4 * (1 + np.abs(m).max())
+    for t in true_tags:
+        ok = True
+        if t == 'lower_triangular':
+            ok = np.abs(np.triu(m, 1)).max(initial=0) <= tol
+        elif t == 'upper_triangular':
+            ok = np.abs(np.tril(m, -1)).max(initial=0) <= tol
+        elif t == 'diagonal':
+            ok = np.abs(m - np.diag(np.diag(m))).max(initial=0) <= tol
+        elif t == 'symmetric':
+            ok = np.allclose(m, m.T, atol=tol)
+        elif t == 'positive_semidefinite':
+            ok = np.linalg.eigvalsh((m + m.T) / 2).min() >= -tol
+        elif t == 'negative_semidefinite':
+            ok = np.linalg.eigvalsh((m + m.T) / 2).max() <= tol
+        elif t == 'tridiagonal':
+            ok = np.abs(np.triu(m, 2)).max(initial=0) <= tol and np.abs(np.tril(m, -2)).max(initial=0) <= tol
+        if not ok:
+            LOG.violation('C08', 'C08.tags', f'{type(op).__name__}/{t}/decorated-{label.split(":")[0]}',
+                          f'{label} answers {t} but its matrix does not have the property', m=np.array2string(m, precision=3, threshold=40))
+
+
 def case(rng: Any, ctx: Ctx, index: int) -> None:
+    if index % 6 == 5:
+        case_harness(rng, ctx)
+        return
     s, op = rand_operator(rng, ctx, atoms=0.7, lazy_inverse=False, index=index)
     # visit the operator and every operator nested in it (each instance judged once)
     seen: list[Any] = []
